@@ -559,7 +559,7 @@ def string_sweep(ctx, W, B):
     targets = [(W.by_name['liteServer.sendMessage'], 'body', 'bytes'), (W.by_name['liteServer.error'], 'message', 'string'),
                (W.by_id[0x184614d1], 'data', 'string'), (W.by_name['testVectorBytes'], 'value', 'vecbytes'),
                (W.by_name['http.server.host'], 'domains', 'vecstring')]
-    lens = list(range(0, 301)) + [65534, 65535, 65536, 65537]
+    lens = list(range(0, 301)) + list(range(65530, 65543))
     if ctx.thorough:
         lens += [V.LEN_MAX - 1, V.LEN_MAX]
     for c, f, kind in targets:
@@ -937,3 +937,144 @@ SPEC['manifest']['text'] += (' MAGIC NUMBERS (sampled, every run): 4-byte patter
                              '(independent encoder, type-strict round trip, consumed == length).')
 SPEC['rule'] += ('; magic numbers: Bool ids round-robin over every int-like leaf of one value per covered constructor + one value with random patterns '
                  '(registered ids, source literals; both byte orders), flags word = pattern, bytes content = pattern')
+
+
+# ----------------------------------------------------------------------------- appended by strengthener st-proof (round 11)
+# Class EXACT-FILL for TL: every field kind that carries the bytes framing (raw bytes, string, and a NESTED OBJECT handed over as a
+# dict with '@type' in a bytes / string field - tl/generator.py serialises it and frames the result) at serialised content lengths
+# around both framing cut-overs (254 = long prefix, 2^16), reached as a SUM: the nested object's length is solved for through the
+# length of a free bytes / string field inside it.  Oracle: the independent encoder (frame()) on the wire bytes, plain round trip.
+
+def _enc_obj_over(W, c, v, field, raw):
+    """V.enc_obj(boxed) with the bytes/string field `field` carrying the raw content `raw`"""
+    import struct
+    out = struct.pack('<I', c['id'])
+    for a in c['args']:
+        if a['cond'] is not None:
+            var, bit = a['cond']
+            if not (v[var] >> bit) & 1:
+                continue
+        if a['field'] == field:
+            out += V.frame(raw)
+        elif a['vec']:
+            out += struct.pack('<I', len(v[a['field']]))
+            for y in v[a['field']]:
+                out += V.enc_one(W, a['ety'], y, True)
+        else:
+            out += V.enc_one(W, a['ety'], v[a['field']], False)
+    return out
+
+
+def check_dict_in_field(ctx, W, B, host, v, field, tag):
+    """v[field] is a dict with '@type' in a bytes / string field of `host`: the wire bytes must be the TL encoding of the host whose
+    field holds the boxed serialisation of that object; the plain parse consumes everything and (bytes field) returns that content."""
+    inner = v[field]
+    ic = W.by_name[inner['@type']]
+    content = V.enc_obj(W, ic, inner, True)
+    ctx.case(('dict-in-field', host['idx'], field, repr(v)), sample={'ctor': host['name'], 'field': field, 'inner': ic['name'], 'content_len': len(content), 'tag': tag})
+    ctx.count('exact-fill:dict-in-field')
+    ctx.count(f'exact-fill:content-len={len(content)}')
+    inp = jin(W, host, v, {'tag': 'exact-fill-dict', 'field': field, 'content_len': len(content)})
+    enc = _enc_obj_over(W, host, v, field, content)
+    st, ser = _call(W.lib.serialize, W.lib.list[host['idx']], copy.deepcopy(v))
+    if st != 'ok':
+        ctx.fail(f'ser-raised:{host["name"]}', 'serialize raised on a nested object in a bytes/string field', inp, ser, enc.hex()[:400])
+        return
+    if ser != enc:
+        k = next((i for i in range(min(len(ser), len(enc))) if ser[i] != enc[i]), min(len(ser), len(enc)))
+        ctx.fail(f'wire:{host["name"]}', f'nested object ({len(content)} bytes serialised) in the {field} field: serialised bytes differ from the TL encoding '
+                 f'(first difference at byte {k})', inp, ser[max(0, k - 8):k + 24].hex() + f' (bytes {max(0, k - 8)}..)', enc[max(0, k - 8):k + 24].hex())
+        return
+    a = next(a for a in host['args'] if a['field'] == field)
+    if a['ety'] != ('base', 'bytes'):
+        return          # a string field: the parser decodes UTF-8, object bytes are no text - only the wire bytes are judged
+    st, r = lib_deser(W, ser + b'', False)
+    if st != 'ok' or r[1] != len(ser):
+        ctx.fail(f'consumed-plain:{host["name"]}', 'plain parse of a host with a nested object in a bytes field failed / did not consume all bytes', inp,
+                 str(r)[:200], len(ser))
+        return
+    if r[0].get(field) != content:
+        ctx.fail(f'roundtrip-plain:{host["name"]}', 'plain parse does not return the nested object\'s serialisation as the bytes content', inp,
+                 str(r[0].get(field))[:200], content.hex()[:200])
+
+
+def exact_fill(ctx, W, B):
+    rng = ctx.rng
+
+    def free(c, kinds):
+        return [a for a in c['args'] if a['ety'] in [('base', k) for k in kinds] and not a['vec'] and a['cond'] is None]
+    hosts = {k: [c for c in W.ctors if W.fully_typed(c) and W.canonical(c) and free(c, [k]) and not any(_untouchable(W, c, a['field']) for a in free(c, [k]))]
+             for k in ('bytes', 'string')}
+    inners = {k: [c for c in W.ctors if W.covered(c) and W.canonical(c) and W.fully_typed(c) and free(c, [k])] for k in ('bytes', 'string')}
+    targets = list(range(240, 272, 4)) + list(range(65524, 65552, 4))
+    for L in targets:
+        for hk in ('bytes', 'string'):
+            for ik in ('bytes', 'string'):
+                if not hosts[hk] or not inners[ik]:
+                    continue
+                for attempt in range(20):
+                    ic = rng.choice(inners[ik])
+                    iv = V.gen_obj(W, rng, ic, 0, {'depth': 1, 'big': False})
+                    fa = rng.choice(free(ic, [ik]))
+                    iv[fa['field']] = b'' if ik == 'bytes' else ''
+                    L0 = len(V.enc_obj(W, ic, iv, True))
+                    if L0 <= L:
+                        break
+                else:
+                    continue
+                sols = []
+                for n in range(max(0, L - L0 - 8), L - L0 + 5):
+                    iv[fa['field']] = bytes(n) if ik == 'bytes' else 'a' * n
+                    if len(V.enc_obj(W, ic, iv, True)) == L:
+                        sols.append(n)
+                for n in sols:
+                    inner = dict(iv)
+                    inner[fa['field']] = V.rand_bytes(W, rng, n) if ik == 'bytes' else V.rand_str(W, rng, n)
+                    inner['@type'] = ic['name']
+                    host = rng.choice(hosts[hk])
+                    v = V.gen_obj(W, rng, host, 0, {'depth': 1, 'big': False})
+                    ha = rng.choice(free(host, [hk]))
+                    ctx.count(f'exact-fill:{hk}-field<-object({ik} free)')
+                    # (1) the object handed over as a dict
+                    vd = dict(v)
+                    vd[ha['field']] = inner
+                    check_dict_in_field(ctx, W, B, host, vd, ha['field'], f'exact-fill L={L}')
+                    # (2) the same content handed over as raw bytes (bytes field only): full oracle incl. model and auto mode
+                    if hk == 'bytes':
+                        vb = dict(v)
+                        vb[ha['field']] = V.enc_obj(W, ic, inner, True)
+                        check_value(ctx, W, B, host, vb, 'nested-in-bytes', expect_auto=MODEL, model=(L <= 300))
+    B.flush()
+
+
+_run_before_exact_fill = run
+_replay_before_exact_fill = replay
+
+
+def run(ctx):
+    if ctx.search:
+        state = ctx.rng.getstate()
+        exact_fill(ctx, world(), Batch(ctx))
+        ctx.rng.setstate(state)
+        if ctx.failures:
+            return
+        _run_before_exact_fill(ctx)
+        return
+    _run_before_exact_fill(ctx)
+    exact_fill(ctx, world(), Batch(ctx))
+
+
+def replay(ctx, payload):
+    inp = payload.get('input') or {}
+    if isinstance(inp, dict) and 'ctor_index' in inp and inp.get('tag') == 'exact-fill-dict':
+        W = world()
+        B = Batch(ctx)
+        check_dict_in_field(ctx, W, B, W.ctors[inp['ctor_index']], _unjson(inp['value']), inp['field'], 'replay')
+        B.flush()
+        return
+    _replay_before_exact_fill(ctx, payload)
+SPEC['manifest']['text'] += (' EXACT-FILL (sampled, every run): raw bytes / strings of every length 0..300 and 65530..65542, and nested objects handed over as a dict '
+                             "with '@type' in a bytes / string field whose boxed serialisation has every word-aligned length 240..268 and 65524..65548 (the length of "
+                             'a free bytes / string field inside the nested object is solved for, every solution used), wire bytes against the independent encoder.')
+SPEC['rule'] += ('; exact fill: nested object (dict) in a bytes / string field at every word-aligned serialised length around 254 and 2^16, obtained by solving '
+                 'for an inner free field length; the same content as raw bytes')
